@@ -356,6 +356,9 @@ var actionBodies = []string{
 	"{ m := map[string]int{\"{\": 1}; return m, nil }",
 	"{ return \"\\\"}\", nil }",
 	"{ return '\\'', nil }",
+	// a Go comment that starts like the recovery operator (D22)
+	"{\n\t//{ see the note above\n\treturn nil, nil\n}",
+	"{ //{}}\n return nil, nil }",
 }
 
 var predBodies = []string{
@@ -363,6 +366,7 @@ var predBodies = []string{
 	"{ if 1 > 0 { return true, nil }; return false, nil }",
 	"{ return \"}\" != \"{\", nil }",
 	"{\n\t// }\n\treturn true, nil\n}",
+	"{\n\t//{F1} not an operator here\n\treturn true, nil\n}",
 }
 
 var stateBodies = []string{
